@@ -58,6 +58,7 @@ var (
 	vxC14HasOld  bool
 	vxC14New     func() [][]byte // acceptable complete new versions
 	vxC14TmpOK   bool
+	vxC14FaultAt2 int
 	vxC14Temps   int
 	// VxC14Steps is the number of mutating steps performed.
 	VxC14Faulted bool
@@ -78,6 +79,11 @@ func VxC14Init(dest string, old []byte, hasOld bool, complete func() [][]byte) {
 	vxC14FaultAt = vx.Int("faultAtStep")
 	vx.Assume(vxC14FaultAt >= 0)
 	vx.Assume(vxC14FaultAt <= 40)
+	// a second failing step after the first (41 = none): faults in the clean-up
+	// of a failed save
+	vxC14FaultAt2 = vx.Int("secondFaultAtStep")
+	vx.Assume(vxC14FaultAt2 > vxC14FaultAt)
+	vx.Assume(vxC14FaultAt2 <= 41)
 	vxC14TmpOK = vx.Bool("tmpdirUsable")
 }
 
@@ -135,7 +141,7 @@ func vxC14Mutation() (fail bool) {
 		vxC14AfterCrash()
 		panic(VxC14Crash{})
 	}
-	fail = vxC14Step == vxC14FaultAt
+	fail = vxC14Step == vxC14FaultAt || vxC14Step == vxC14FaultAt2
 	vxC14Step++
 	if fail {
 		VxC14Faulted = true
